@@ -10,6 +10,7 @@ import (
 	"sort"
 	"strings"
 	"testing"
+	"unicode"
 
 	"github.com/gobwas/glob"
 	"pgregory.net/rapid"
@@ -203,6 +204,19 @@ func instantiate(t *rapid.T, e vkit.Expr, slashOK bool) string {
 	return sb.String()
 }
 
+func swapCase(v string) string {
+	return strings.Map(func(r rune) rune {
+		switch {
+		case unicode.IsLower(r):
+			return unicode.ToUpper(r)
+		case unicode.IsUpper(r):
+			return unicode.ToLower(r)
+		}
+
+		return r
+	}, v)
+}
+
 func genTMatcherFor(t *rapid.T, v string, sep rune, label string) tmatcher {
 	want := rapid.IntRange(0, 3).Draw(t, label+".wantHold") != 0
 
@@ -210,6 +224,11 @@ func genTMatcherFor(t *rapid.T, v string, sep rune, label string) tmatcher {
 	case "exact":
 		if want {
 			return tmatcher{"exact", v}
+		}
+
+		// (a value which differs in the case of its letters only is another value)
+		if other := swapCase(v); other != v && rapid.Bool().Draw(t, label+".otherCase") {
+			return tmatcher{"exact", other}
 		}
 
 		return tmatcher{"exact", v + "_"}
